@@ -243,6 +243,8 @@ pub fn item(it: &Value, lay: &mut Layout, res: Option<&Value>) -> String {
         "A" => format!("{}{}={}{};", reference(&it["r"], lay), lay.sp(), lay.sp(), expr(&it["e"], lay)),
         "S" => format!("{}{}={}{};", it["x"].as_str().unwrap(), lay.sp(), lay.sp(), expr(&it["e"], lay)),
         "SI" => format!("{}[{}]{}={}{};", it["x"].as_str().unwrap(), expr(&it["i"], lay), lay.sp(), lay.sp(), expr(&it["e"], lay)),
+        // `nonl`: nothing after the value (the END of the output has no line break)
+        "P" if it["nonl"] == true => format!("print!({});", expr(&it["e"], lay)),
         "P" => format!("print!({},{}\"\\n\");", expr(&it["e"], lay), lay.sp()),
         "PP" => {
             let parts: Vec<String> = it["es"].as_array().unwrap().iter().map(|e| format!("{},{}\"\\n\"", expr(e, lay), lay.sp())).collect();
@@ -276,12 +278,27 @@ pub fn program(p: &Value, lay: &mut Layout) -> String {
             s.push_str(&lay.nl());
         }
     }
-    if let Some(cs) = p["consts"].as_array() {
-        for c in cs {
-            let t = if c.get("ty").is_some() { ty(&c["ty"]) } else { ty(&c["t"]) };
-            s.push_str(&format!("const {}: {} = {};", c["x"].as_str().unwrap(), t, expr(&c["e"], lay)));
-            s.push_str(&lay.nl());
+    // constants are listed in dependency order; `corder: "rev"` writes them in reverse order (every constant before the
+    // ones it uses), `cpos: "last"` writes them after the functions (a named length is then declared after its uses)
+    let consts_text = |lay: &mut Layout| -> String {
+        let mut s = String::new();
+        if let Some(cs) = p["consts"].as_array() {
+            let mut order: Vec<&Value> = cs.iter().collect();
+            if p["corder"] == "rev" {
+                order.reverse();
+            }
+            for c in order {
+                let t = if c.get("ty").is_some() { ty(&c["ty"]) } else { ty(&c["t"]) };
+                s.push_str(&format!("const {}: {} = {};", c["x"].as_str().unwrap(), t, expr(&c["e"], lay)));
+                s.push_str(&lay.nl());
+            }
         }
+        s
+    };
+    let consts_last = p["cpos"] == "last";
+    if !consts_last {
+        let text = consts_text(lay);
+        s.push_str(&text);
     }
     for f in p["fns"].as_array().unwrap() {
         let params: Vec<String> = f["params"]
@@ -308,6 +325,19 @@ pub fn program(p: &Value, lay: &mut Layout) -> String {
         }
         s.push('}');
         s.push_str(&lay.nl());
+    }
+    if consts_last {
+        let text = consts_text(lay);
+        s.push_str(&text);
+    }
+    // the END of the input: in a third of the random layouts nothing follows the last token (no line break at the end
+    // of the file; or the file ends inside a line comment)
+    if let Some(r) = &mut lay.rng {
+        if r.chance(33) {
+            while s.ends_with('\n') || s.ends_with('\r') || s.ends_with(' ') || s.ends_with('\t') {
+                s.pop();
+            }
+        }
     }
     s
 }
